@@ -539,3 +539,82 @@ pub fn populate(
     store.close_replica(ns);
     Ok(model)
 }
+
+// ------------------------------------------------------------------------------------------------
+// full observable dump of a store (used by C06, C16, C18)
+
+#[derive(Clone, Debug, PartialEq, Eq, Default)]
+pub struct DocDump {
+    pub entries: Vec<SignedEntry>,
+    pub by_key: Vec<SignedEntry>,
+    /// author -> head timestamp (the head key is checked separately: any key at that timestamp is fine)
+    pub heads: BTreeMap<[u8; 32], u64>,
+    pub peers: Option<Vec<[u8; 32]>>,
+    pub policy: String,
+    pub kind: Option<String>,
+}
+
+#[derive(Clone, Debug, PartialEq, Eq, Default)]
+pub struct StoreDump {
+    pub docs: BTreeMap<[u8; 32], DocDump>,
+    pub namespaces: Vec<([u8; 32], String)>,
+    pub authors: Vec<[u8; 32]>,
+    pub content_hashes: BTreeSet<[u8; 32]>,
+}
+
+pub fn doc_dump(store: &mut Store, ns: NamespaceId) -> R<DocDump> {
+    let entries = dump(store, ns)?;
+    let by_key = dump_by_key(store, ns)?;
+    let heads = heads(store, ns)?.into_iter().map(|(a, (t, _))| (a, t)).collect();
+    let peers = es(store.get_sync_peers(&ns))?.map(|it| it.collect());
+    let policy = format!("{:?}", es(store.get_download_policy(&ns))?);
+    let mut kind = None;
+    for x in es(store.list_namespaces())? {
+        let (id, k) = es(x)?;
+        if id == ns {
+            kind = Some(format!("{k:?}"));
+        }
+    }
+    Ok(DocDump { entries, by_key, heads, peers, policy, kind })
+}
+
+pub fn store_dump(store: &mut Store, docs: &[NamespaceId]) -> R<StoreDump> {
+    let mut d = StoreDump::default();
+    for ns in docs {
+        d.docs.insert(ns.to_bytes(), doc_dump(store, *ns)?);
+    }
+    for x in es(store.list_namespaces())? {
+        let (id, k) = es(x)?;
+        d.namespaces.push((id.to_bytes(), format!("{k:?}")));
+    }
+    for a in es(store.list_authors())? {
+        d.authors.push(es(a)?.id().to_bytes());
+    }
+    for h in es(store.content_hashes())? {
+        d.content_hashes.insert(*es(h)?.as_bytes());
+    }
+    Ok(d)
+}
+
+pub fn describe_doc(d: &DocDump) -> String {
+    format!(
+        "entries {} by_key {} heads {:?} peers {:?} policy {} kind {:?}",
+        describe_all(&d.entries),
+        describe_all(&d.by_key),
+        d.heads.iter().map(|(a, t)| (hex::encode(&a[..2]), *t)).collect::<Vec<_>>(),
+        d.peers.as_ref().map(|p| p.iter().map(|x| x[0]).collect::<Vec<_>>()),
+        d.policy,
+        d.kind
+    )
+}
+
+pub fn describe_store(d: &StoreDump) -> String {
+    let docs: Vec<String> = d.docs.iter().map(|(k, v)| format!("doc {}: {}", hex::encode(&k[..3]), describe_doc(v))).collect();
+    format!(
+        "{} | namespaces {:?} | authors {} | content hashes {}",
+        docs.join(" ; "),
+        d.namespaces.iter().map(|(k, s)| (hex::encode(&k[..3]), s.clone())).collect::<Vec<_>>(),
+        d.authors.len(),
+        d.content_hashes.len()
+    )
+}
